@@ -29,6 +29,7 @@ import (
 	"runtime"
 	"sort"
 	"strings"
+	"time"
 
 	"github.com/openGemini/openGemini/engine/index"
 	"github.com/openGemini/openGemini/engine/index/sparseindex"
@@ -1531,12 +1532,23 @@ func runPMatch(c *hx.Ctx, r *hx.Rng) {
 // ---------------------------------------------------------------------------------------------
 
 func runSkip(c *hx.Ctx) error {
-	c.Stats.Rule += " || skip indexes: SKIndexReaderImpl.Scan over scripted readers (answers 1/0/error, ascending and malformed ranges, any seek threshold) and over the real set reader; SKConditionImpl (ConvertToRPNExpr + convertToRPNElem + IsExist) over scripted atom answers on AND/OR trees incl. malformed ones; MinMaxIndexReader with a test ReadFunc (arbitrary int records; sorted int/float/string/bool columns with the boundary layout and the row oracle); bloom filter (index list of 1..3 columns) / full-text bloom filter / relations with both side by side (index lists in any order, set and time-cluster entries) written by the real index writers from generated string columns (nulls, empty, separators, non-ASCII, arbitrary bytes, long tokens, short last block) and read back by the readers the real CreateSKFileReaders builds (ReInit + Scan per reader) under =,!=,<,>,match-phrase,AND,OR conditions with atoms on the served column, on other index columns, on unindexed columns and on __log___; IP bloom-filter index (= / IPINRANGE / != atoms on the served, another index and an unindexed column, prefixes 0..32, non-address text); text (inverted) index written by the real cgo builder and read through CreateSKFileReaders / TextIndexReader (one or two index columns, up to 36 segments = three parts, ASCII / multi-byte / mixed text); fragment ranges -> segment ranges (getSegmentRanges over lib/fragment's variable-size marks, malformed ranges included) and the Location segment iteration over them (ascending / descending, limits); time cluster: QuerySchema.GetTimeRangeByTC + GetTimeCondition against the cluster values SortHelper.SortForColumnStore writes (durations 1ns..1d, times before 1970, open ranges); non-trivial = some fragment dropped and some kept"
+	c.Stats.Rule += " || skip indexes: SKIndexReaderImpl.Scan over scripted readers (answers 1/0/error, ascending and malformed ranges, any seek threshold) and over the real set reader; SKConditionImpl (ConvertToRPNExpr + convertToRPNElem + IsExist) over scripted atom answers on AND/OR trees incl. malformed ones; MinMaxIndexReader with a test ReadFunc (arbitrary int records; sorted int/float/string/bool columns with the boundary layout and the row oracle); bloom filter (index list of 1..3 columns) / full-text bloom filter / relations with both side by side (index lists in any order, set and time-cluster entries) written by the real index writers from generated string columns (nulls, empty, separators, non-ASCII, arbitrary bytes, long tokens, short last block) and read back by the readers the real CreateSKFileReaders builds (ReInit + Scan per reader) under =,!=,<,>,match-phrase,AND,OR conditions with atoms on the served column, on other index columns, on unindexed columns and on __log___; IP bloom-filter index (= / IPINRANGE / != atoms on the served, another index and an unindexed column, prefixes 0..32, non-address text); text (inverted) index written by the real cgo builder and read through CreateSKFileReaders / TextIndexReader (one or two index columns, up to 36 segments = three parts, ASCII / multi-byte / mixed text); reader and condition objects reused as a query does: one PKIndexReader + one key condition over sequences of 2-5 files (different contents, fragment counts and sizes, fixed / variable fragments, any order, a file scanned again), the same through the production caller engine.attachedIndexReader.Next, sessions interleaving them with one skip-index reader set over several files (ReInit per file); fragment ranges -> segment ranges (getSegmentRanges over lib/fragment's variable-size marks, malformed ranges included) and the Location segment iteration over them (ascending / descending, limits); time cluster: QuerySchema.GetTimeRangeByTC + GetTimeCondition against the cluster values SortHelper.SortForColumnStore writes (durations 1ns..1d, times before 1970, open ranges); non-trivial = some fragment dropped and some kept"
 	n := c.Budget(8000, 600000)
 	r := hx.NewRng(c.Seed ^ 0x5c20511b)
+	t0 := time.Now()
+	phase := func(name string) { // wall time per group of ops, for the evidence notes (never compared)
+		c.Stats.Notes = append(c.Stats.Notes, fmt.Sprintf("harness phase %s: %d ms", name, time.Since(t0).Milliseconds()))
+		t0 = time.Now()
+	}
 	nScan, nSet, nIsx, nMmx, nBloom := n/4, n/40, n/5, n/40, n/8
 	if nBloom > 16000 {
 		nBloom = 16000
+	}
+	// the ops that write index files dominate the wall time: the quick tier runs half as many of them
+	fileDiv := 1
+	if c.Tier != "thorough" {
+		fileDiv = 2
+		nBloom /= 2
 	}
 	for i := 0; i < nScan; i++ {
 		runSkipScan(c, r)
@@ -1560,8 +1572,13 @@ func runSkip(c *hx.Ctx) error {
 	for i := 0; i < n/10; i++ {
 		runPMatch(c, r)
 	}
-	work := filepath.Join(c.Out, "bfwork")
+	// index files: 256 KiB per block and index column - memory-backed scratch when the machine has one
+	work, werr := os.MkdirTemp("/dev/shm", "verif-c20-work-")
+	if werr != nil {
+		work = filepath.Join(c.Out, "bfwork")
+	}
 	defer os.RemoveAll(work)
+	phase("in-memory ops")
 	for i := 0; i < nBloom; i++ {
 		if err := runBloom(c, r, work); err != nil {
 			return err
@@ -1570,14 +1587,35 @@ func runSkip(c *hx.Ctx) error {
 			runtime.GC() // the bloom readers never close their index file; the finalizer does
 		}
 	}
+	phase("bloom / bloomx")
 	for i := 0; i < n/20; i++ {
 		runTimeCluster(c, r)
 	}
+	for i := 0; i < n/10; i++ {
+		runScanSeq(c, r)
+	}
+	for i := 0; i < n/20; i++ {
+		runScanProd(c, r)
+	}
+	phase("tcw / scanseq")
+	nSess := n / 40 / fileDiv
+	if nSess > 3000 {
+		nSess = 3000
+	}
+	for i := 0; i < nSess; i++ {
+		if err := runSession(c, r, work); err != nil {
+			return err
+		}
+		if i%50 == 49 {
+			runtime.GC()
+		}
+	}
+	phase("sessions")
 	for i := 0; i < n/20; i++ {
 		runSegRanges(c, r)
 		runLocIter(c, r)
 	}
-	nIP := n / 16
+	nIP := n / 16 / fileDiv
 	if nIP > 8000 {
 		nIP = 8000
 	}
@@ -1589,7 +1627,8 @@ func runSkip(c *hx.Ctx) error {
 			runtime.GC()
 		}
 	}
-	nText := n / 16
+	phase("segr / locit / bloomip")
+	nText := n / 16 / fileDiv
 	if nText > 8000 {
 		nText = 8000
 	}
@@ -1601,8 +1640,9 @@ func runSkip(c *hx.Ctx) error {
 			runtime.GC()
 		}
 	}
+	phase("text")
 	// detached (OBS) layout: one vertical group = 128 filters of 256 KiB per index column and case
-	nDet := 40
+	nDet := 12
 	if c.Tier == "thorough" {
 		nDet = 300
 	}
@@ -1612,5 +1652,6 @@ func runSkip(c *hx.Ctx) error {
 		}
 		runtime.GC()
 	}
+	phase("bloomv")
 	return nil
 }
